@@ -817,8 +817,7 @@ func (c *Client) Call(ctx context.Context, procedure string, options wamp.Dict, 
 		abortMsg, err := c.prepareCallResultMessage(msg)
 		if err != nil {
 			if abortMsg != nil {
-				c.sess.Send() <- abortMsg
-				c.sess.Close()
+				c.abortSession(abortMsg)
 			}
 
 			return nil, err
@@ -964,8 +963,7 @@ func (c *Client) CallProgressive(ctx context.Context, procedure string, sendProg
 		abortMsg, err := c.prepareCallResultMessage(msg)
 		if err != nil {
 			if abortMsg != nil {
-				c.sess.Send() <- abortMsg
-				c.sess.Close()
+				c.abortSession(abortMsg)
 			}
 
 			return nil, err
@@ -1313,6 +1311,17 @@ type replyWaiter struct {
 	// gone is closed when the waiter stops waiting, so that run() is never
 	// left blocked handing over a reply that nobody will read.
 	gone chan struct{}
+}
+
+// abortSession sends ABORT to the router and stops receiving from it. The
+// connection itself is closed by Close(), so that it is closed only once and
+// not while other goroutines are still sending.
+func (c *Client) abortSession(abortMsg *wamp.Abort) {
+	select {
+	case c.sess.Send() <- abortMsg:
+	case <-c.Done():
+	}
+	c.sess.EndRecv(nil)
 }
 
 func (c *Client) expectReply(id wamp.ID) {
@@ -1862,8 +1871,7 @@ func (c *Client) runHandleInvocation(msg *wamp.Invocation) {
 							wamp.OptMessage: ErrPPTNotSupportedByPeer.Error(),
 						},
 					}
-					c.sess.Send() <- &abortMsg
-					c.sess.Close()
+					c.abortSession(&abortMsg)
 					return
 				}
 
